@@ -102,6 +102,7 @@ func runC09(c *eng.Ctx) {
 
 	// ---- R09.2 limit relations
 	c.Rule("R09.2", "K1")
+	ruleCountLimitKeepsEverythingOnlyWhenItFits(c)
 	for _, ps := range passes {
 		fn := c.Fn(ps.key)
 		if fn == nil {
@@ -174,8 +175,8 @@ func runC09(c *eng.Ctx) {
 		c.Check(okLoop && len(gt) >= 2, fn.Name()+" deletes every older segment after the stop", p.Pos(fn.Pos()), "the delete loop continues from the stop index down to 0 in steps of one", "the delete loop of "+fn.Name()+" does not cover all indices below the stop index: the survivors are not a contiguous suffix")
 		// the result returned is the kept list, not the input
 		for _, r := range eng.Returns(fn) {
-			if len(r.Results) == 2 && eng.NilConst(r.Results[1]) && !eng.Param("segments")(r.Results[0]) {
-				ok := sliceFromLast(r.Results[0])
+			if len(eng.RetVals(r)) == 2 && eng.NilConst(eng.RetVals(r)[1]) && !eng.Param("segments")(eng.RetVals(r)[0]) {
+				ok := sliceFromLast(eng.RetVals(r)[0])
 				c.Check(ok, fn.Name()+" returns the kept suffix", c.Pos(r), "the returned list is built from the newest segment backwards", "the list returned by "+fn.Name()+" is not the kept suffix")
 			}
 		}
@@ -318,7 +319,7 @@ func runC09(c *eng.Ctx) {
 	}
 	okReturn := func(in ssa.Instruction) bool {
 		r, ok := in.(*ssa.Return)
-		return ok && len(r.Results) == 2 && eng.NilConst(r.Results[1])
+		return ok && len(eng.RetVals(r)) == 2 && eng.NilConst(eng.RetVals(r)[1])
 	}
 	isDelete := eng.IsCallTo(cl + "deleteCleaner.deleteSegments")
 	for _, ps := range passes {
@@ -454,7 +455,7 @@ func allCmpExact(fn *ssa.Function, a, b eng.VM, rel eng.Rel) (int, bool) {
 func returnsTrueOnlyWhenAllZero(fn *ssa.Function) bool {
 	fields := []string{"Bytes", "Messages", "Age"}
 	for _, r := range eng.Returns(fn) {
-		if len(r.Results) != 1 {
+		if len(eng.RetVals(r)) != 1 {
 			return false
 		}
 		// which comparisons are decided by branching, which one is the returned value itself
@@ -505,7 +506,7 @@ func returnsTrueOnlyWhenAllZero(fn *ssa.Function) bool {
 			}
 			return false
 		}
-		if !visit(r.Results[0], 0) {
+		if !visit(eng.RetVals(r)[0], 0) {
 			return false
 		}
 		for _, f := range fields {
